@@ -71,7 +71,8 @@ class View:
 
 A = z3.ArraySort
 CONTAINER_KEYS = {'flist.count': A(I, I), 'flist.copied_from': A(I, I), 'vec.data.int': A(I, I), 'vec.data.real': A(I, R), 'vec.data.bool': A(I, B),
-                  'set.present': A(I, A(I, B)), 'set.has1': A(I, A(I, B)), 'set.has2': A(I, A(I, B)), 'set.f1': A(I, A(I, I)), 'set.f2': A(I, A(I, I))}
+                  'set.present': A(I, A(I, B)), 'set.has1': A(I, A(I, B)), 'set.has2': A(I, A(I, B)), 'set.f1': A(I, A(I, I)), 'set.f2': A(I, A(I, I)),
+                  'sset.member': A(I, B), 'ghost.alloc': I}
 
 
 def key_sort(self, key):
@@ -124,7 +125,8 @@ class Ctx:
 
 class Contract:
     def __init__(self, qname, prop, pre=None, post=None, assigns=None, safety=(), use=(), signature=None, name=None,
-                 canary=True, unroll=None, setup=None, max_depth=None, name_locals=0, safety_via=None, relational=(), frame=None, on_call=None, ret_model=None, assumed=False, lambda_ordinal=None, slice_loop=None, prefix_loop=None, split_heap_ifs=False, var_lambda=None, captures=None, throws=()):
+                 canary=True, unroll=None, setup=None, max_depth=None, name_locals=0, safety_via=None, relational=(), frame=None, on_call=None, ret_model=None, assumed=False, lambda_ordinal=None, slice_loop=None, prefix_loop=None, split_heap_ifs=False, var_lambda=None, captures=None, throws=(), suffix_loop=None):
+        self.suffix_loop = suffix_loop      # contract on the tail of the function: from loop #k (included) to the end, from an arbitrary state
         self.captures = captures
         self.throws = list(throws)        # used as a callee: classes of the exceptions the call may raise (after its frame effect)
         self.qname = qname; self.prop = prop; self.pre = pre; self.post = post; self.assigns = assigns
@@ -199,15 +201,25 @@ class Contract:
         C.caller_this = fr.this.ref if isinstance(fr.this, ObjLV) else fr.this
         callee = self.name
         for item in (self.pre(C) if self.pre else []):
-            eng.obligations.append(Obligation('call-requires:%s:%s' % (callee, item[0]), st.pc, item[1], 'call', eng.where(n, fr), info={'fn': fr.qname}))
+            eng.obligations.append(Obligation('call-requires:%s:%s' % (callee, item[0]), pre_state.pc, item[1], 'call', eng.where(n, fr), info={'fn': fr.qname}))
         if self.on_call: self.on_call(C, st)
         # frame
+        if self.frame is None and self.assigns is None:
+            raise Unsupported('contract %s is used at a call site but declares neither a frame nor an assigns clause' % self.name)
         fr_spec = self.frame(C) if self.frame else ([(k, None) for k in (self.assigns or [])])
-        for (key, refs) in fr_spec:
+        for item_ in fr_spec:
+            key, refs = item_[0], item_[1]
             if key == '*':
                 kept = {k: eng.harr(st, k, z3.ArraySort(I, eng.key_sort(k))) for k in (refs or [])}      # ('*', [keys to keep])
+                kept_at = []                                                                           # ('*', [...], [(key, [refs kept])])
+                for (k_, rs_) in (item_[2] if len(item_) > 2 else []):
+                    kept_at.append((k_, eng.harr(st, k_, z3.ArraySort(I, eng.key_sort(k_))), list(rs_)))
                 eng.havoc_all(st)
                 for k, a_ in kept.items(): st.heap[k] = a_
+                for (k_, old_, rs_) in kept_at:
+                    arr_ = eng.harr(st, k_, old_.sort())
+                    for r_ in rs_: arr_ = z3.Store(arr_, r_, z3.Select(old_, r_))
+                    st.heap[k_] = arr_
                 continue
             srt = eng.key_sort(key) if not key.startswith('vec.data.') else None
             if key.startswith('vec.data.'):
@@ -231,8 +243,11 @@ class Contract:
         elif rt.kind != 'void':
             if rt.ref or not eng.is_value_type(rt): raise Unsupported('callee contract for %s needs a ret_model (returns %r)' % (self.qname, rt))
             ret = eng.fresh_value(rt.noref(), 'ret.' + d.get('name', 'f'))
-        C2 = Ctx(eng, d, args, this, pre_state, st, ret, 'ret')
-        for item in (self.post(C2) if self.post else []):
+        C2 = Ctx(eng, d, args, this, pre_state, st.clone(), ret, 'ret')
+        npc_ = len(C2.post_state.pc)
+        posts_ = self.post(C2) if self.post else []
+        st.pc.extend(C2.post_state.pc[npc_:])
+        for item in posts_:
             st.pc.append(item[1])
         eng.contracts_used.add(self.name)
         return ret
@@ -290,10 +305,11 @@ class LoopContract:
     def apply(self, eng, n, st, fr, cond, inc, body, pre_test, bind, range_info):
         lname = '%s/loop%s' % (fr.qname, self.ordinal)
         entry = st.clone()
-        L = LoopCtx(eng, st, entry, fr, range_info)
+        # (views handed to specifications are frozen copies: quantified clauses are instantiated later, when the live state has moved on)
+        L = LoopCtx(eng, st.clone(), entry, fr, range_info)
         # 1. invariant holds on entry
         for (nm, g) in self.invariant(L):
-            eng.obligations.append(Obligation('inv-init[%s]:%s' % (self.ordinal, nm), st.pc, g, 'loop', eng.where(n, fr), info={'fn': fr.qname}))
+            eng.obligations.append(Obligation('inv-init[%s]:%s' % (self.ordinal, nm), L.st.pc, g, 'loop', eng.where(n, fr), info={'fn': fr.qname}))
         # 2. havoc
         nodes = [x for x in (cond, inc, body) if isinstance(x, dict)]
         mod = self.modified_locals(eng, nodes, st)
@@ -302,9 +318,15 @@ class LoopContract:
         for vid in mod:
             if vid in self.keep: continue
             v = st.env[vid]
-            if isinstance(v, LVS): continue     # references / objects: contents live in the heap
-            st.env[vid] = self.havoc_value(eng, v, eng.var_names.get(vid, 'v'))
-            d_ = eng.ast.by_id.get(vid) if isinstance(vid, str) else None
+            if isinstance(v, LocalLV) and not v.path and v.var in st.env and not isinstance(st.env[v.var], LVS):
+                # a reference to a value held in the environment (by-reference scalar parameter): the referenced value changes
+                if v.var in self.keep: continue
+                st.env[v.var] = self.havoc_value(eng, st.env[v.var], eng.var_names.get(vid, 'v'))
+                vid = v.var
+            elif isinstance(v, LVS): continue     # references / objects: contents live in the heap
+            else:
+                st.env[vid] = self.havoc_value(eng, v, eng.var_names.get(vid, 'v'))
+            d_ = eng.ast.by_id.get(vid[len('param!'):] if str(vid).startswith('param!') else vid) if isinstance(vid, str) else None
             if d_ is not None and is_z3(st.env[vid]) and z3.is_int(st.env[vid]):
                 t_ = TY.parse(d_.get('type', {}).get('desugaredQualType') or d_.get('type', {}).get('qualType') or 'void').noref()
                 if t_.kind == 'int':
@@ -338,8 +360,11 @@ class LoopContract:
         head = st.clone()
         # objects created before the loop (locals carry negative references -1, -2, ...) belong to the loop frame too
         head.ghost['alloc_watermark'] = next(eng.alloc)
-        L = LoopCtx(eng, st, entry, fr, range_info)
-        for (nm, g) in self.invariant(L):
+        L = LoopCtx(eng, st.clone(), entry, fr, range_info)
+        npc = len(L.st.pc)
+        invs_ = self.invariant(L)
+        st.pc.extend(L.st.pc[npc:])          # axioms about the terms the invariant mentions (lengths >= 0, element identities)
+        for (nm, g) in invs_:
             st.pc.append(g)
         results = []
         # 3. one arbitrary iteration
@@ -361,12 +386,12 @@ class LoopContract:
                 if inc is not None:
                     if callable(inc): inc(s2)
                     else: eng.ev(inc, s2, fr)
-                L2 = LoopCtx(eng, s2, entry, fr, range_info)
+                L2 = LoopCtx(eng, s2.clone(), entry, fr, range_info)
                 for (nm, g) in self.invariant(L2):
-                    eng.obligations.append(Obligation('inv-step[%s]:%s' % (self.ordinal, nm), s2.pc, g, 'loop', eng.where(n, fr), info={'fn': fr.qname}))
+                    eng.obligations.append(Obligation('inv-step[%s]:%s' % (self.ordinal, nm), L2.st.pc, g, 'loop', eng.where(n, fr), info={'fn': fr.qname}))
                 if var0 is not None:
                     v1 = self.decreases(L2)
-                    eng.obligations.append(Obligation('decreases[%s]' % self.ordinal, s2.pc, z3.And(v1 < var0, var0 >= 0), 'loop', eng.where(n, fr), info={'fn': fr.qname}))
+                    eng.obligations.append(Obligation('decreases[%s]' % self.ordinal, L2.st.pc, z3.And(v1 < var0, var0 >= 0), 'loop', eng.where(n, fr), info={'fn': fr.qname}))
                 self.check_frame(eng, head, s2, n, fr)
             elif o[0] == 'break':
                 self.check_frame(eng, head, s2, n, fr)
@@ -451,7 +476,13 @@ class Registry:
 
     def add(self, c): self.contracts.append(c); return c
     def add_loop(self, lc): self.loops[(lc.qname, lc.ordinal)] = lc; return lc
-    def loop_contract(self, qname, ordinal): return self.loops.get((qname, ordinal))
+    def loop_contract(self, qname, ordinal):
+        lc = self.loops.get((qname, ordinal))
+        if lc is None and qname in getattr(self, 'default_havoc', ()):
+            # a loop the specification does not know (the code was restructured): it may write anything; the function's
+            # postconditions then have to hold without any knowledge about it
+            lc = LoopContract(qname, ordinal, lambda L: [], modifies=['*'], name='loop%s(unknown to the specification: anything may change)' % ordinal)
+        return lc
     def static_fact(self, fn):
         """fn(eng) -> [(name, holds: bool, note)]: facts read off the AST of the current tree (type hierarchy, declarations)"""
         self.static.append(fn)
@@ -551,6 +582,48 @@ def run_relational(eng, contract, rel, d, args, this, pre_state, paths, qn, pres
             eng.obligations.append(Obligation('relational:' + rel.name, pc, g, 'relational', qn,
                                               info={'fn': qn, 'outcome': 'ret', 'requires': [g_ for (_, g_) in pres],
                                                     'site': site_sig(d, o1[2] if o1 else None) + '|' + site_sig(d, site2), 'extra_inputs': rel.symbols}))
+
+
+def run_suffix(eng, contract, d, st, fr, result):
+    """the statements of the function from loop #k (a statement of the function's top-level block) to the end, started in an
+    arbitrary state: every local declared before gets an arbitrary value of its type"""
+    fr.loop_ord = None
+    eng.loop_ordinal({'id': None}, fr)
+    target = None
+    for nid, o in eng.loop_ord_cache[fr.fn['id']].items():
+        if o == contract.suffix_loop: target = nid
+    body = eng.ast.body_of(d)
+    def contains(x):
+        if not isinstance(x, dict): return False
+        if x.get('id') == target: return True
+        return any(contains(c) for c in x.get('inner', []))
+    idx = None
+    for k, stmt in enumerate(body.get('inner', [])):
+        if contains(stmt): idx = k; break
+    if idx is None: raise Unsupported('suffix: loop #%s is not inside a top-level statement of %s' % (contract.suffix_loop, contract.qname))
+    eng.lazy_locals = True
+    try:
+        tail = {'kind': 'CompoundStmt', 'id': 'suffix!' + str(body.get('id')), 'inner': body['inner'][idx:], '_file': body.get('_file'), '_line': body['inner'][idx].get('_line')}
+        def outer_vars(x, acc):
+            if not isinstance(x, dict): return
+            if x.get('kind') in ('VarDecl', 'BindingDecl') and x.get('name') and not x['name'].startswith('__'): acc.append(x)
+            if x.get('kind') == 'LambdaExpr': return
+            for c in x.get('inner', []): outer_vars(c, acc)
+        acc = []
+        for stmt in body['inner'][:idx]: outer_vars(stmt, acc)
+        for vd in acc:
+            if vd['id'] in st.env or 'type' not in vd: continue
+            fake = {'kind': 'DeclRefExpr', 'referencedDecl': {'id': vd['id'], 'kind': vd['kind'], 'name': vd.get('name'), 'type': vd['type']}}
+            try: eng.ev_DeclRefExpr(fake, st, fr)
+            except Unsupported: pass
+        result['slice_pre'] = st.clone()
+        if contract.pre:
+            C0 = Ctx(eng, d, result.get('args', {}), fr.this, result['slice_pre'])
+            for (nm, g) in contract.pre(C0): st.pc.append(g)
+            result['slice_pre'] = st.clone()
+        return eng.exec_stmt(tail, st, fr)
+    finally:
+        eng.lazy_locals = False
 
 
 def run_loop_slice(eng, contract, d, st, fr, result):
@@ -703,7 +776,7 @@ def check_function(eng, contract, result):
         if contract.setup: contract.setup(eng, st, args, this)
         pre_state = st.clone()
         C0 = Ctx(eng, d, args, this, pre_state)
-        pres = contract.pre(C0) if (contract.pre and contract.slice_loop is None) else []
+        pres = contract.pre(C0) if (contract.pre and contract.slice_loop is None and contract.suffix_loop is None) else []
         for (nm, g) in pres: st.pc.append(g)
         result['args'] = args
         pre_state = st.clone()
@@ -712,7 +785,10 @@ def check_function(eng, contract, result):
         fr = Frame(d, this, qn, 1)
         fr.ret_ty = TY.parse(d['type']['qualType'].split('(')[0].strip()) if d['kind'] != 'CXXConstructorDecl' else None
         eng.fns_executed.add(qn)
-        if contract.slice_loop is not None:
+        if contract.suffix_loop is not None:
+            outs = run_suffix(eng, contract, d, st, fr, result)
+            pre_state = result['slice_pre']
+        elif contract.slice_loop is not None:
             outs = run_loop_slice(eng, contract, d, st, fr, result)
             pre_state = result['slice_pre']
         elif contract.prefix_loop is not None and contract.slice_loop is None:
@@ -748,6 +824,10 @@ def check_function(eng, contract, result):
                 info = {'fn': qn, 'outcome': outcome, 'requires': [g for (_, g) in pres], 'site': site_sig(d, site)}
                 if len(item) > 2 and item[2] is not None: info['via'] = item[2]
                 if len(item) > 3 and item[3]: info['cuts'] = list(item[3])
+                if nm.startswith('cover:'):
+                    # reachability check: the situation g must be possible at this exit (a refutable 'not g'); guards against a
+                    # proof that holds only because the interesting case is contradictory
+                    eng.obligations.append(Obligation(nm, s.pc, z3.Not(g), 'cover', qn, info=info)); continue
                 eng.obligations.append(Obligation('ensures:' + nm, s.pc, g, 'ensures', qn, info=info))
             if contract.assigns is not None:
                 for key, arr in s.heap.items():
